@@ -1,8 +1,13 @@
-(* C15 (PARTIAL) — GP model wrappers: the bookkeeping part of "predictions are the exact posterior of
-   exactly the samples held at the last update".  The posterior algebra is gpytorch's and is validated
-   numerically by the check, not proved. *)
-From Coq Require Import List Bool Arith.
+(* C15 — GP model wrappers.  Part 1: the bookkeeping of "predictions are the exact posterior of exactly
+   the samples held at the last update" (which samples are held / conditioned on).  Part 2: the posterior
+   algebra itself — exact Gaussian conditioning over Q by rank-one updates (Posterior.v): it is the textbook
+   batch posterior (K + S)^-1 form, independent of order and batching, with non-negative variances that never
+   grow with data.  gpytorch's floating-point evaluation is tied to Part 2 by the correspondence check
+   (extracted Posterior model on the model's own kernel values vs predict()). *)
+From Coq Require Import QArith List Bool Arith Permutation.
 From VOPy Require Import GPWrapper GPWrapperProofs.
+From VOPy Require Posterior PosteriorTab.
+Open Scope nat_scope.
 Import ListNotations.
 
 Theorem C15_held_is_history : forall (sample : Type) m ops k, k < m ->
@@ -36,3 +41,64 @@ Theorem C15_factory_helpers_up_to_date : forall (sample : Type) m train initial 
   nth k (held sample (factory sample m train initial)) [] = initial.
 Proof. exact factory_up_to_date. Qed.
 Print Assumptions C15_factory_helpers_up_to_date.
+
+(* ------------------------------------------------------------------ Part 2: the posterior algebra *)
+Module P := Posterior.
+
+(* the sequentially conditioned GP IS the textbook batch posterior:  mean(a) = m(a) + sum_j alpha_j k(a,x_j)
+   with (K + diag s) alpha = y - m(X);  cov(a,b) = k(a,b) - sum_j beta_j k(a,x_j) with (K + diag s) beta = k(X,b);
+   and these linear systems have exactly one solution *)
+Theorem C15_posterior_mean_is_batch_formula : forall l g, P.psd (P.gcov g) -> P.noise_ok l ->
+  exists alpha, P.solves (P.gcov g) l alpha (fun _ o => (P.oy o - P.gmean g (P.ox o))%Q) /\
+    forall a, (P.gmean (P.cond g l) a == P.gmean g a + P.qsum (fun p => fst p * P.gcov g a (P.ox (snd p))) (combine alpha l))%Q.
+Proof. exact P.cond_mean_is_batch. Qed.
+Print Assumptions C15_posterior_mean_is_batch_formula.
+
+Theorem C15_posterior_cov_is_batch_formula : forall l g b, P.psd (P.gcov g) -> P.noise_ok l ->
+  exists beta, P.solves (P.gcov g) l beta (fun _ o => P.gcov g (P.ox o) b) /\
+    forall a, (P.gcov (P.cond g l) a b == P.gcov g a b - P.qsum (fun p => fst p * P.gcov g a (P.ox (snd p))) (combine beta l))%Q.
+Proof. exact P.cond_cov_is_batch. Qed.
+Print Assumptions C15_posterior_cov_is_batch_formula.
+
+Theorem C15_batch_system_has_unique_solution : forall k l r a1 a2, P.psd k -> P.noise_ok l ->
+  P.solves k l a1 r -> P.solves k l a2 r -> Forall2 Qeq a1 a2.
+Proof. exact P.solves_unique. Qed.
+Print Assumptions C15_batch_system_has_unique_solution.
+
+(* predictions do not depend on the order of the added samples ... *)
+Theorem C15_posterior_order_independent : forall l l' g, P.psd (P.gcov g) -> P.noise_ok l -> Permutation l l' ->
+  P.gp_eq (P.cond g l) (P.cond g l').
+Proof. exact P.cond_perm. Qed.
+Print Assumptions C15_posterior_order_independent.
+(* ... nor on how they were batched *)
+Theorem C15_posterior_batching_independent : forall l1 l2 g, P.cond g (l1 ++ l2) = P.cond (P.cond g l1) l2.
+Proof. exact P.cond_app. Qed.
+Print Assumptions C15_posterior_batching_independent.
+
+(* posterior variances are non-negative and never grow with more data; the kernel stays PSD *)
+Theorem C15_posterior_variance_nonneg : forall l g a, P.psd (P.gcov g) -> P.noise_ok l -> (0 <= P.gcov (P.cond g l) a a)%Q.
+Proof. exact P.var_nonneg. Qed.
+Print Assumptions C15_posterior_variance_nonneg.
+Theorem C15_posterior_variance_never_grows : forall l more g a, P.psd (P.gcov g) -> P.noise_ok l -> P.noise_ok more ->
+  (P.gcov (P.cond g (l ++ more)) a a <= P.gcov (P.cond g l) a a)%Q.
+Proof. exact P.var_never_grows. Qed.
+Print Assumptions C15_posterior_variance_never_grows.
+Theorem C15_posterior_stays_psd : forall l g, P.psd (P.gcov g) -> P.noise_ok l -> P.psd (P.gcov (P.cond g l)).
+Proof. exact P.cond_psd. Qed.
+Print Assumptions C15_posterior_stays_psd.
+
+(* a model holding no samples predicts its prior; an observation of one objective of a model list
+   changes only that objective *)
+Theorem C15_no_samples_is_prior : forall g, P.cond g [] = g.
+Proof. exact P.cond_nil. Qed.
+Print Assumptions C15_no_samples_is_prior.
+Theorem C15_posterior_objective_isolation : forall gs k j o, j <> k -> nth_error (P.condk gs k o) j = nth_error gs j.
+Proof. exact P.condk_isolation. Qed.
+Print Assumptions C15_posterior_objective_isolation.
+
+(* the executable table form run by the correspondence check computes exactly this posterior *)
+Theorem C15_executable_posterior_correct : forall n l t g, Forall (fun o => P.ox o < n) l ->
+  PosteriorTab.agree n (PosteriorTab.tab_gp t) g ->
+  PosteriorTab.agree n (PosteriorTab.tab_gp (PosteriorTab.cond_tab n t l)) (P.cond g l).
+Proof. exact PosteriorTab.cond_tab_correct. Qed.
+Print Assumptions C15_executable_posterior_correct.
